@@ -321,6 +321,42 @@ def run_filtering(map_on, mode, mlist):
     return xstate.bfs(S(), lambda s: list(evs), step2, lambda s: common.canon_key([s.x, s.r]), max_states=20000, nontrivial=lambda s: len(getattr(s.x, "source_to_iso_name", ())) > 0, stop_after=6)
 
 
+def run_strays():
+    """continuation frames that belong to no message in progress (their first frame was never seen, or they carry another
+    sequence counter than the message being received) are ignored input: decoder X gets them, decoder S does not, and the two
+    must return the same for everything else.  'In progress' is tracked by the environment: the counter of the last first frame."""
+    ident = wire.can_id(3, FAST_PGN, FAST_SRC, 255)
+    evs = {}
+    for c in (0, 1, 2):
+        for i, f in enumerate(wire.fast_frames(c, fast_payload(c))):
+            evs[f"f{c}_{i}"] = (c, i, wire.ebyte_packet(ident, f))
+
+    class S:
+        def __init__(self):
+            self.x, self.s, self.cur = NMEA2000Decoder(), NMEA2000Decoder(), None
+
+    def step(st, name):
+        c, i, pkt = evs[name]
+        rx = feed(st.x, "tcp", pkt)
+        if i > 0 and c != st.cur:
+            if norm(rx) is not None:
+                return [{"kind": "stray_frame_not_ignored", "facts": {"probe": "strays"}, "signature": "strays:returned",
+                         "detail": f"[event {name}] a continuation frame of no message in progress made the decoder return {str(norm(rx))[:80]}", "case": {"strays": True}}]
+            return []
+        if i == 0:
+            st.cur = c
+        rs = feed(st.s, "tcp", pkt)
+        if norm(rs) is not None:
+            st.cur = None
+        if norm(rx) != norm(rs):
+            return [{"kind": "ignored_input_changes_later_results", "facts": {"probe": "strays"}, "signature": "strays:differs",
+                     "detail": f"[event {name}] the decoder returned {str(norm(rx))[:70]}, a decoder that was never given the stray continuation frames returned {str(norm(rs))[:70]}",
+                     "case": {"strays": True}}]
+        return []
+    return xstate.bfs(S(), lambda st: list(evs), step, lambda st: common.canon_key([st.x, st.s, st.cur]), max_states=20000,
+                      nontrivial=lambda st: st.cur is not None, stop_after=6)
+
+
 def config_checks():
     """caller-owned argument objects and defaults survive construction; decoders built from the same objects behave alike"""
     vios = []
@@ -362,6 +398,9 @@ def run(ctx):
     cres = run_claims()
     fres = [run_filtering(*cfg) for cfg in ((False, "exclude", ("Garmin",)), (True, "include", ("furuno",)), (False, "include", ("Garmin",)))]
     fvios = [v for r in fres for v in r.violations]
+    sres = run_strays()
+    fvios += sres.violations
+    fres.append(sres)
     vios = res.violations + cvios + cres.violations + fvios
     cov = {
         "states": res.states + cres.states, "transitions": res.transitions + cres.transitions,
@@ -384,6 +423,22 @@ def run(ctx):
 
 def replay(ctx, rep):
     c = rep.get("case", {})
+    if c.get("strays"):
+        orig = xstate.bfs
+
+        def forced_s(init, enabled, step, key, **kw):
+            out = xstate.SearchResult()
+            for i, ev in enumerate(c["history"]):
+                v = step(init, ev)
+                if v:
+                    out.violations += [dict(x, case=dict(x.get("case", {}), history=c["history"][:i + 1])) for x in v]
+                    break
+            return out
+        xstate.bfs = forced_s
+        try:
+            return run_strays().violations
+        finally:
+            xstate.bfs = orig
     if "filtering" in c:
         orig = xstate.bfs
 
